@@ -494,9 +494,9 @@ class LRTable:
                         else 0
                     )
                     +
-                    # Account for `\b` at the beginning and end of keyword regex
+                    # Keyword recognizer is named by the keyword it matches
                     (
-                        (len(symbol.recognizer._regex) - 4)
+                        len(symbol.recognizer.name)
                         if type(symbol.recognizer) is RegExRecognizer and symbol.keyword
                         else 0
                     )
